@@ -4,6 +4,6 @@ EXTENDS ExclusionList
 \* molecule and 3 in another with a bond 2-3 across molecules and a bond 2-1
 MCInits == { [mol |-> <<1, 1, 1>>, ias |-> << <<1, 2>> >>],
              [mol |-> <<1, 1, 2>>, ias |-> << <<2, 3>>, <<2, 1>> >>] }
-MCPairs == { <<1, 2>>, <<2, 1>>, <<1, 3>>, <<2, 3>>, <<2, 2>> }
+MCPairs == { <<1, 2>>, <<2, 1>>, <<2, 3>> }
 MCLists == { <<3, 1, 2>> }
 ====
